@@ -747,7 +747,18 @@ func (p *parser) chainExpr(underUnary bool) Expr {
 done:
 	if underUnary && (len(c.Steps) > 0) {
 		_ = nsteps0
-		p.doubt("unary-applied-to-chain")
+		// Indexes, slices and [*] bind tighter than a unary operator in every
+		// reading: !a[*] is !(a[*]). For a dot step, a flatten or a filter the
+		// readings part ((!a).b, (!a)[] in the reference implementations, whose
+		// binding powers for these are below that of "!"; !(a.b) by "selectors
+		// bind tighter still"): not pinned.
+		for _, st := range c.Steps {
+			switch st.Kind {
+			case SIndex, SSlice, SListStar:
+			default:
+				p.doubt("unary-applied-to-chain")
+			}
+		}
 	}
 	return c
 }
